@@ -27,7 +27,8 @@ RULE = ("random operation sequences of length 40 over 2 sessions x 3 regions: se
         "granted URLs with suffixes and of unrelated URLs. quick 8 x 60 sequences, thorough 16 x 3000. distinct_nontrivial = distinct operation sequences + distinct (operation, outcome class) pairs"
         ". Round-5 additions: regions known by address and handle only whose seed arrives later; re-announcement of a known region with a fresh seed, the current one or an older one (A,B,A); the main grid's grid-wide asset URLs granted to several regions; no two regions may be shown the same wrapper URL"
         ". Round 7: the process clock is advanced by minutes / an hour / a day between steps (grants do not wear out); several proxy-only capabilities adjacent in the viewer's Seed request"
-        ". Round 9: a proxy-only capability registered by an addon's request hook while the Seed request that names it passes through")
+        ". Round 9: a proxy-only capability registered by an addon's request hook while the Seed request that names it passes through"
+        ". Round 10: the simulator grants (unasked) a capability under a name an addon registered as proxy-only; the name stays out of later upstream requests and is presented")
 ASSUMPTIONS = [
     "when several granted URLs are prefixes of a request URL any of them is an acceptable attribution",
     "asset-server caps (GetMesh*, GetTexture*, ViewerAsset*) that are not wrappers may resolve without region/session "
